@@ -838,6 +838,8 @@ class EvalMixin(InterpBase):
         if recv is not None and isinstance(recv, Obj) and recv.cls is not None:
             k = f"{recv.cls.module}:{recv.cls.name}.{info.qualname.split('.')[-1]}"
             if use and k in use:
+                if use[k] == "inline":
+                    return None              # this proof looks inside the callee instead of using its contract
                 return self.registry[use[k]]
             if k in self.registry and not getattr(self.registry[k], "proof_only", False):
                 return self.registry[k]
